@@ -16,6 +16,8 @@ TARGETS = [
 	(K + 'c_kmer_to_index_rc',), (K + 'kmer_to_index_rc',),
 	(K + 'c_index_to_kmer',), (K + 'index_to_kmer',),
 	(K + 'c_revcomp',), (K + 'revcomp',),
+	# the names under which the library itself uses the reverse complement (re-exports are followed to their definition on every run)
+	('gambit.seq.revcomp',), ('gambit.kmers.revcomp',),
 ] + [('gambit.seq.seq_to_bytes', t, {'seq': ts}) for t, ts in py_seq.SEQ_INSTANCES.items()] + [
 	('gambit.seq.validate_dna_seq_bytes', None, {'seq': py_seq.SEQ_INSTANCES['bytes']}),
 ] + [('gambit.kmers.kmer_to_index', t, {'kmer': ts}) for t, ts in py_seq.SEQ_INSTANCES.items()] + [
@@ -37,6 +39,9 @@ ASSUMPTIONS = TRUSTED + [
 def register(reg):
 	cython_kmers.register(reg)
 	py_seq.register(reg)
+	# whatever gambit.seq.revcomp / gambit.kmers.revcomp are bound to must satisfy the contract of the reverse complement
+	for alias in ('gambit.seq.revcomp', 'gambit.kmers.revcomp'):
+		reg.contracts[alias] = reg.contracts[K + 'revcomp']
 
 
 # ---- lemmas over the contracts ------------------------------------------------------------------------
